@@ -685,8 +685,11 @@ class Interp:
                     return ('agg', (('int', r), ('bool', ('ovf', r, lo, hi))))
                 if r is None:
                     return self.fresh_int(w, aty, 'mul')
-                if not self.in_range(w, r, lo, hi):
-                    if self.cfg.get('plain_arith_obligations', True) and not op.endswith('Unchecked'):
+                if self.cfg.get('plain_arith_obligations', True) and not op.endswith('Unchecked'):
+                    # unchecked (release-profile) arithmetic: a wrap is silent, so staying in range is an obligation of its own
+                    if self.in_range(w, r, lo, hi):
+                        self.passed(frame, site, 'overflow', f"{base} stays in [{lo},{hi}] (wrapping arithmetic)")
+                    else:
                         self.obligation(w, frame, site, 'overflow', [le(Lin.c(lo), r), le(r, Lin.c(hi))],
                                         f"{base} {x.pretty()} , {y.pretty()} stays in [{lo},{hi}] (wrapping arithmetic)")
                 return ('int', r)
@@ -1411,6 +1414,12 @@ class Interp:
             return res
         # unknown callee: result unknown, owned arguments are consumed by it
         self.note_unmodelled(f"call {key}")
+        esc = []
+        for a in args:
+            esc += self.owned_boxes(w, a)
+        if esc:
+            # a storage buffer handed by value to a function without a summary: whether it survives is not decided
+            self.rec(frame, bb, 'event', site, ('escape', tuple(esc), key, self.key_desc(w)))
         if dest_ty['k'] == 'int':
             a = ATOMS.fresh(f"{key.split('::')[-1]}()", *int_range(dest_ty), defn=('call', key, tuple(args)))
             return [(w, ('int', Lin.atom(a)))]
